@@ -448,8 +448,9 @@ def run(ctx, deep=False):
         ctx.count({"list-scenario": name}, detail, trivial=False)
         ctx.fail(name, {"scenario": name}, detail)
     ctx.notes["stats"] = stats
-    if hasattr(sys.modules[__name__], "lean_correspondence"):
-        lean_correspondence(ctx)  # noqa
+    # model vs live objects: clone / interleaving histories through the store model (drv_tree, op chist)
+    from harness.impl.c13lean import lean_correspondence
+    lean_correspondence(ctx)
 
 
 def search(ctx):
